@@ -184,6 +184,16 @@ class Executor:
         s.add(*conds)
         t = time.time(); r = s.check(); self.solver_time += time.time() - t; self.queries += 1
         if r == z3.unknown:
+            # the full z3 pipeline, briefly (decides the wide bit-vector VCs of literal parsing and indexing in seconds)
+            s = self.solver(); s.set('timeout', 15000); s.add(*conds)
+            t = time.time(); r = s.check(); self.solver_time += time.time() - t
+        if r == z3.unknown:
+            # arithmetic-heavy bit-vector queries (division/remainder by constants): cvc5's integer encoding can refute in seconds
+            # what bit-blasting does not finish; only its `unsat` is used (a model is always taken from z3)
+            t = time.time(); r2 = cvc5_unsat(s.to_smt2(), 60); self.solver_time += time.time() - t
+            if r2:
+                self.cvc5_unsat = getattr(self, 'cvc5_unsat', 0) + 1
+                return z3.unsat, s
             s = self.solver(); s.add(*conds)
             t = time.time(); r = s.check(); self.solver_time += time.time() - t
         return r, s
@@ -480,8 +490,12 @@ class Executor:
             return CONST_MODELS[txt](st)
         mc = re.match(r'^(?:\w+::)+([A-Z][A-Z0-9_]*)$', txt)
         if mc and fn is not None:
-            cf = self.prog.by_name.get(mc.group(1))
-            if cf is not None and cf.crate == fn.crate and not cf.params and cf.sig.startswith('fn ' + mc.group(1) + '()'):
+            segs = txt.split('::'); cf = None
+            for k in range(len(segs) - 1, -1, -1):          # MIR names const items by a suffix of their path (`FRAGMENT`, `datetime::DATE_TIME_FORMAT`)
+                cand = self.prog.by_name.get('::'.join(segs[k:]))
+                if cand is not None and cand.crate == fn.crate and not cand.params and cand.sig.startswith('fn ' + '::'.join(segs[k:]) + '()'):
+                    cf = cand; break
+            if cf is not None:
                 key = ('constitem', cf.crate, cf.name)
                 if key not in st.env:
                     outs = list(self.run(cf, [], st, 0))
@@ -783,6 +797,25 @@ class Executor:
         if isinstance(f, Py) and f.kind == 'pyfn':
             yield from f.data(self, list(args), st, depth); return
         raise Unsupported(f'call of non-function value {f!r}')
+
+
+def cvc5_unsat(smt2, timeout_s):
+    """True only when cvc5 (bit-vectors solved as integers) reports unsat without any error line"""
+    import subprocess, tempfile, shutil
+    exe = shutil.which('cvc5')
+    if exe is None: return False
+    with tempfile.NamedTemporaryFile('w', suffix='.smt2', delete=False, dir=os.environ.get('TMPDIR', '/tmp')) as f:
+        f.write('(set-logic ALL)\n' + re.sub(r'\b(bvsdiv|bvudiv|bvsrem|bvurem|bvsmod)_i\b', r'\1', smt2)); path = f.name
+    try:
+        if os.environ.get('VERIF_KEEP_SMT'): shutil.copy(path, '/tmp/last-vc.smt2')
+        r = subprocess.run([exe, '--lang', 'smt2', '--solve-bv-as-int=sum', f'--tlimit={int(timeout_s * 1000)}', path], stdout=subprocess.PIPE, stderr=subprocess.STDOUT, text=True, timeout=timeout_s + 10)
+        out = r.stdout.strip().split('\n')
+        return bool(out) and out[0].strip() == 'unsat' and not any('(error' in l or 'rror' in l for l in out)
+    except Exception:
+        return False
+    finally:
+        try: os.unlink(path)
+        except OSError: pass
 
 
 def _unsupported(msg):
